@@ -428,10 +428,11 @@ func (w *world) close() {
 
 func cfgID() configapi.ConfigurationID { return configapi.ConfigurationID{Target: theTarget} }
 
-// init creates fresh stores and the configuration record.  seed: the configuration is created with
-// one initial committed value (which the store puts into the side map); nomast: Status.Mastership
-// is left nil.
-func (w *world) init(seed bool, nomast bool) error {
+// init creates fresh stores and the configuration record (Status.Mastership set).
+// seed 0: no initial value (Committed.Values is nil when read back);
+// seed 1: the creator gives the entry one initial committed value with UpdateStatus (embedded);
+// seed 2: the creator passes the initial committed value to Create (which puts it into the side map).
+func (w *world) init(seed int) error {
 	w.close()
 	w.closed = false
 	w.cl = test.NewClient()
@@ -456,13 +457,19 @@ func (w *world) init(seed bool, nomast bool) error {
 	w.crec = cfgctl.NewReconcilerForVerif(w.topo, w.conns, w.cfgs)
 	w.mrec = mastctl.NewReconcilerForVerif(w.topo, w.cfgs)
 	c := &configapi.Configuration{ID: cfgID()}
-	if !nomast {
-		c.Status.Mastership = &configapi.MastershipStatus{}
+	c.Status.Mastership = &configapi.MastershipStatus{}
+	seedVals := map[string]configapi.PathValue{seedPath: {Path: seedPath, Value: strVal("0")}}
+	if seed == 2 {
+		c.Committed.Values = seedVals
 	}
-	if seed {
-		c.Committed.Values = map[string]configapi.PathValue{seedPath: {Path: seedPath, Value: strVal("0")}}
+	if err := w.rawCfg.Create(context.Background(), c); err != nil {
+		return err
 	}
-	return w.rawCfg.Create(context.Background(), c)
+	if seed == 1 {
+		c.Committed.Values = seedVals
+		return w.rawCfg.UpdateStatus(context.Background(), c)
+	}
+	return nil
 }
 
 const seedPath = "/seed"
